@@ -74,6 +74,69 @@ A = {
     what='vm/runner.go Render: DIRTY is cleared only after a successful render; persisted DIRTY makes a blocked session render',
     needs='abnormal termination whose own page fails to render, then further requests in persisted mode',
     history='initially MISSED although C20_Blocked fired: the matcher of KF-blocked-output-after-failed-terminating-request excused ANY blocked request that started with DIRTY set. Fixed by: the matcher now requires what the finding says - the request that terminated the session returned an error from Exec'),
+ # ---- round 3
+ 'C01c-newvm-page-without-sizer': dict(
+    what='vm/runner.go NewVm: the first Page of a new Vm has no sizer (Reset() no longer called in the constructor)',
+    needs='persisted operation resumed after a HALT, and a render reached WITHOUT a move (HALT / RELOAD / MAP / HALT)',
+    history='initially MISSED (every second screen of the model and random programs was reached through INCMP/MOVE, which resets the page). Fixed by: model program "inline" and second screens without a move in the generator'),
+ 'C02c-menu-sizes-in-runes': dict(
+    what='render/menu.go Sizes: next/previous entries measured in runes while everything else is measured in bytes',
+    needs='non-ASCII browse labels at least 3 bytes longer than their rune count',
+    history='initially MISSED (labels were ASCII also in the multi-byte configurations). Fixed by: labels of the UTF-8 configurations are multi-byte too'),
+ 'C03c-empty-input-not-recorded': dict(
+    what='engine/db.go Exec/init: an empty input is no longer recorded in the state; INCMP compares the previous input',
+    needs='long-lived engine, empty input after a non-empty one',
+    history='initially MISSED (instruction events are judged from the logged pre-state, which already held the wrong input; the request-level prediction was only in C20). Fixed by: C03_RoutedInput and C04_ReqNav at request level'),
+ 'C04c-reload-of-sink-resets-index': dict(
+    what='vm/runner.go runReload: RELOAD of a sink symbol resets the page index',
+    needs='a node that RELOADs its sink symbol, browsed with > / <',
+    history='initially MISSED (no program browsed a node with a RELOAD of the sink; C04 did not include the paged program). Fixed by: RELOAD in node sub of program "pages", "pages" added to C04'),
+ 'C05c-rewind-resets-cache-to-frame0': dict(
+    what='vm/runner.go Rewind: one ca.Reset() instead of a Pop per level (drops the top node frame too)', needs='symbols loaded at the top node, descend, then ^',
+    history='caught at once (C05_Scope)'),
+ 'C06c-flag-index-truncated-mod-256': dict(
+    what='state/flag.go: byte index computed from uint8(bitIndex): flags >= 256 alias flag mod 256', needs='more than 248 client flags and an index >= 256',
+    history='initially MISSED (2-4 client flags everywhere). Fixed by: model program "wideflags" (300 flags), wide flag sets in the generator'),
+ 'C07c-render-keeps-dirty-long-lived-wedges': dict(
+    what='vm/runner.go Render: DIRTY cleared only after a successful render; a long-lived engine then re-flushes and fails in every later Exec',
+    needs='a page that fails to render while Exec said continue, then another input', history='caught at once (C07_Equiv on program pages)'),
+ 'C08c-errcheck-invalidates-state': dict(
+    what='vm/runner.go runErrCheck: invalidates the state on a non-LOADFAIL error; Persister.Save then panics', needs='persister + an instruction error',
+    history='caught at once (C08_ReqNoPanic, mode P)'),
+ 'C09c-add-registers-limit-before-checks': dict(
+    what='cache/cache.go Add: registers the size limit before the duplicate / capacity checks', needs='rejected Add with another limit, then Update',
+    history='caught at once (C09_RejectedNoop; first by the new inductive-step stage)'),
+ 'C10c-fromsessionkey-trimleft': dict(
+    what='db/db.go FromSessionKey: bytes.TrimLeft with the session prefix as cutset', needs='Dump with a key whose first characters occur in the session id',
+    history='caught at once (C10_DumpComplete)'),
+ 'C11c-fs-fixed-temp-name': dict(
+    what='db/fs writeFileAtomic: one fixed scratch file .tmp per directory', needs='two Puts in flight at once in one directory',
+    history='initially MISSED by C11 (no concurrent stage; C19 caught it). Fixed by: kv-conc (sessions working at the same time on one fs directory, own handles) judged by C11_ConcOwnData, and FsSaveConc.tla (every interleaving of two recorded saves) in C19'),
+ 'C12c-fs-get-trims-line-endings': dict(
+    what='db/fs Get: trims trailing line endings of every non-BIN value (also of CBOR state records)', needs='a stored value ending in \\n or \\r',
+    history='not a crash-atomicity change (the agent says so): C12 does not see it; caught at once by C10 (C10_Result on values ending in a line feed)'),
+ 'C13c-get-scan-error-leaves-tx': dict(
+    what='db/postgres Get: no Abort on the Scan error path', needs='row-fetch fault during Get', history='caught at once (C13_EndedOnce with a scan fault)'),
+ 'C14c-instructionsplit-255-wraps': dict(
+    what='vm/vm.go instructionSplit: sz+1 in uint8 wraps for 255-byte symbols', needs='a 255-byte symbol', history='caught at once (C14_DecodesBack on the enumerated 255-byte symbol)'),
+ 'C15c-incmp-decode-error-dropped-after-match': dict(
+    what='vm/runner.go runInCmp: the decode error of a malformed INCMP is dropped when an earlier INCMP already matched',
+    needs='malformed INCMP reached after a matching INCMP',
+    history='initially MISSED (Run was only required to reject a malformed FIRST instruction: a later one may legitimately never be reached). Fixed by: the hook logs the pending code at every instruction boundary and C15_RunDecodes demands that a run that reports success never stood before a malformed instruction; mutated programs get a matching / wildcard / non-matching INCMP in front'),
+ 'C16c-menuadd-alpha-selector-lost': dict(
+    what='asm/asm.go MenuAdd: DOWN with a non-numeric selector keeps the target as selector', needs='DOWN sym <alphabetic selector> label',
+    history='caught at once (C16_Fidelity)'),
+ 'C17c-input-pattern-unanchored': dict(
+    what='vm/input.go: input pattern without ".*$" - inputs with a line feed after a valid first character are accepted', needs='input like "1\\n"',
+    history='initially MISSED (no refused input started with an acceptable character). Fixed by: refused inputs with embedded line feeds in the model histories and the insert pairs'),
+ 'C18c-dbresource-caches-static-handler': dict(
+    what='resource/db.go DbFuncFor: caches the resolved handler of a static symbol, ignoring the language', needs='same resource object, same static symbol, another language',
+    history='initially MISSED - and exposed that the static-symbol part of the language stage was VACUOUS (DbResource built without DATATYPE_STATICLOAD: the node never rendered). Fixed by: static loads enabled, anti-vacuity guard, a mode with one resource object kept for all sessions'),
+ 'C19c-shared-invalid-input-error': dict(
+    what='vm/input.go NewInvalidInputError: returns one shared error object', needs='two sessions on the catch page at the same time', history='caught at once (race detector + transcripts)'),
+ 'C20c-lastvalue-kept-on-empty-add': dict(
+    what='cache/cache.go Add: LastValue not updated by an empty value; the final output appends an older value', needs='last LOAD before the end returns empty content',
+    history='initially MISSED (the content of the final output was not compared). Fixed by: C20_ExitValue (the value the engine sets aside, read from the engine object, equals the specification\'s) and an empty alternative for the last symbol of program "ends"'),
 }
 for sid, a in A.items():
     mp = os.path.join(V, 'seeded', sid, 'meta.json')
